@@ -252,6 +252,8 @@ def configs(tier):
                             result.append({"preset": preset, "header": header, "fields": fields, "checks": checks, "allowed": allowed, "allowed_after": True})
     for preset in ("fixed", "delimited"):
         result.append({"preset": preset, "header": 0, "fields": [(True, 4), (False, 2)], "checks": ["ok"], "allowed": False, "encoding": "utf-8"})
+    # every field may be empty: a row of empty cells is an accepted row that every check sees
+    result.append({"preset": "delimited", "header": 1, "fields": [(True, 4), (True, 2)], "checks": ["ok", "veto:b"], "allowed": False})
     return result
 
 
@@ -267,7 +269,7 @@ def explore(item):
             key = tuple("ok" if c in ("ab", "b") else c for c in row)
             first_bad = next((i for i, c in enumerate(key) if c != "ok"), None)
             klass = (first_bad, key[first_bad] if first_bad is not None else tuple(row), len(row))
-            if klass not in seen:
+            if klass not in seen or all(c == "" for c in row):  # the row of empty cells only always stays
                 seen.add(klass)
                 reduced.append(row)
         pool = reduced
